@@ -469,7 +469,7 @@ func (w *World) projBcn(ctx sdk.Context, tr *Track) J {
 					continue
 				}
 				b := br.Timestamp
-				recs = append(recs, J{"h": absU64(b.TimestampId), "hash": b.Hash, "st": secOf(b.SubmitTime), "qowner": w.nameOf(br.Owner), "qid": absU64(br.BeaconId)})
+				recs = append(recs, J{"h": absU64(b.TimestampId), "hash": b.Hash, "st": absU64(b.SubmitTime), "qowner": w.nameOf(br.Owner), "qid": absU64(br.BeaconId)})
 			}
 		}
 		cj["recs"] = recs
